@@ -428,6 +428,11 @@ def replay_case(ctx, case):
         for e in r['ev']:
             print('   ', json.dumps(e)[:300])
         return 1
+    if any(e['e'] == 'rerr' for e in r['ev']):
+        print('a read failed with another exception than EOF / TIMEOUT although the peer only wrote and went away:')
+        for e in r['ev']:
+            print('   ', json.dumps(e)[:300])
+        return 1
     v, st = tracecheck.validate([r], 'ExpectTrace', ctx.work, constants=TRACE_CONSTS, procs=1, tag='replay')
     names = st['all'].get('replay', [v['replay'][0]])
     print('replay verdict: %s at event %d (all failing clauses: %s)' % (v['replay'][0], v['replay'][1], names))
